@@ -242,6 +242,17 @@ def c09(ctx):
             nonblank = sum(1 for l in t.replace('\r\n', '\n').replace('\r', '\n').split('\n') if l.strip())
             if len(es) != nonblank:
                 ctx.violation('spec', 'a line was skipped or split', {'text': t, 'entries': es})
+            # field counts of the accepted lines (signed Manifests aside): TIMESTAMP / IGNORE exactly one value,
+            # file entries a path, a size and name/value pairs
+            if '-----BEGIN' not in t:
+                for l in t.replace('\r\n', '\n').replace('\r', '\n').split('\n'):
+                    f = l.split()
+                    if not f:
+                        continue
+                    if f[0] in ('TIMESTAMP', 'IGNORE') and len(f) != 2:
+                        ctx.violation('spec', f'a {f[0]} line with {len(f) - 1} values was accepted', {'text': t, 'entries': es})
+                    elif f[0] in ('DATA', 'MISC', 'EBUILD', 'AUX', 'MANIFEST', 'DIST') and (len(f) < 3 or len(f) % 2 == 0):
+                        ctx.violation('spec', f'a {f[0]} line with {len(f) - 1} values was accepted', {'text': t, 'entries': es})
             for e in es:
                 p = e[1] if e[0] == 'ign' else (e[3] if (e[0] == 'file' and e[1] == 'AUX') else (e[2] if e[0] == 'file' else 'x'))
                 if p == '' or p.startswith('/'):
@@ -253,7 +264,12 @@ def c09(ctx):
         else:
             ctx.violation('spec', 'implementation inconsistent', {'text': t, 'impl': x})
     for d in dis[:8]:
-        ctx.violation('correspondence', 'load differs between model and implementation', d)
+        if d['model'][0] != d['impl'][0]:
+            # the accept / reject verdict differs: the model is the reference (theorems of Properties/C09.v)
+            ctx.violation('spec', f'the implementation {"accepts" if d["impl"][0] == "ok" else "rejects"} a text the reference parser '
+                          f'{"rejects" if d["impl"][0] == "ok" else "accepts"}: {d["request"][1]!r}', d)
+        else:
+            ctx.violation('correspondence', 'load differs between model and implementation', d)
     # unit level: from_list on field lists (bypasses the line splitter)
     fl = []
     for i in range(3000 if quick else 40000):
